@@ -765,6 +765,10 @@ func registerLibIntrinsics() {
 	I["time.Now"] = func(in *Interp, fr *frame, args []Value) (Value, bool) {
 		return in.zero(fr.curInstr.(ssa.Value).Type()), true
 	}
+	I["time.Sleep"] = func(in *Interp, fr *frame, args []Value) (Value, bool) {
+		in.preempt()
+		return nil, true
+	}
 	I["(time.Time).Add"] = func(in *Interp, fr *frame, args []Value) (Value, bool) {
 		return args[0], true
 	}
